@@ -30,8 +30,11 @@ class Score:
     sigs: list = field(default_factory=list)   # list of signature rows (cells) before the first measure
 
 
+FIRST_KINDS = (None, '4c 4e 4g', '4r', '8.cc#L')     # first data cell of the score: plain pool note, chord, rest, decorated note
+
+
 def build(M: int, lens: tuple, opening: bool, pickup: int, final: bool, kern_spines: int = 1, text_spine: bool = False,
-          sig_rows=(('*clefG2',), ('*M4/4',)), number_bars: bool = True) -> Score:
+          first_kind: int = 0, sig_rows=(('*clefG2',), ('*M4/4',)), number_bars: bool = True) -> Score:
     """M barline-delimited measures with lens[m] data rows each.
 
     opening : the first measure has its own barline (=1) in front of it
@@ -54,6 +57,9 @@ def build(M: int, lens: tuple, opening: bool, pickup: int, final: bool, kern_spi
         k[0] += 1
         cells = []
         for c in range(kern_spines):
+            if i == 0 and first_kind:
+                cells.append(FIRST_KINDS[first_kind] if c == 0 else '2r' + ';' * c)   # every spine starts with a non-note cell kind
+                continue
             cells.append(NOTES[(i * kern_spines + c) % len(NOTES)] if (i * kern_spines + c) < len(NOTES)
                          else '%d%s' % (16, 'cdefgab'[(i + c) % 7] * 3))
         if text_spine:
